@@ -140,7 +140,8 @@ def indep_write(store, g, enc):
          "node_props": {k: native_prop(p) for k, p in g["node_props"].items()},
          "edge_props": {k: native_prop(p) for k, p in g["edge_props"].items()}}
     attrs = {"creator": {"tool": "not-geff", "v": [1, 2]}, "multiscales": []} if enc["extra_attrs"] else {}
-    root = zarr.create_group(store, zarr_format=fmt, attributes=dict(attrs))
+    # `overwrite`: the location already holds something (a re-export): zarr removes it first
+    root = zarr.create_group(store, zarr_format=fmt, attributes=dict(attrs), **({"overwrite": True} if enc.get("overwrite") else {}))
 
     def put(group, name, a):
         a = np.asarray(a)
@@ -159,7 +160,8 @@ def indep_write(store, g, enc):
     def dummy_like(v, i):
         """any value may sit under a missing entry"""
         if v.dtype.kind == "U":
-            return np.full(v[i].shape, "dummy"[: max(1, v.dtype.itemsize // 4)], dtype=v.dtype)
+            # "" is what a writer that pads unset strings leaves there
+            return np.full(v[i].shape, enc.get("str_dummy", "dummy")[: max(1, v.dtype.itemsize // 4)], dtype=v.dtype)
         if v.dtype.kind == "f":
             return np.full(v[i].shape, np.nan, dtype=v.dtype)
         if v.dtype.kind == "b":
@@ -458,6 +460,12 @@ def observe_backend(store, backend, want, **kw):
     try:
         graph, md = geff.read(store, backend=backend, **kw)
         diff = compare_adapter(get_backend(backend).graph_adapter(graph), md, want)
+        # directedness is part of the graph: the returned metadata says it, and the graph object is of the directed /
+        # undirected class of its library (nx.DiGraph / nx.Graph, rx.PyDiGraph / rx.PyGraph, sg.SpatialDiGraph / SpatialGraph)
+        if diff is None and md.directed != want["directed"]:
+            diff = f"returned metadata says directed={md.directed}, the store says directed={want['directed']}"
+        if diff is None and ("Di" in type(graph).__name__) != want["directed"]:
+            diff = f"returned a {type(graph).__name__}, the store says directed={want['directed']}"
     except BaseException as e:  # noqa: BLE001
         return {"outcome": C01.exc_class(e), "msg": f"{type(e).__name__}: {e}"[:300]}
     return {"outcome": "ok", "diff": diff}
@@ -848,7 +856,7 @@ def check_document_names(ck):
 
 # ----------------------------------------------------------------- the check
 def run(ck: common.Check):
-    ck.prove(["GeffProps.C02", "GeffProps.C02Links"])
+    ck.prove(["GeffProps.C02", "GeffProps.C02Links", "GeffProps.C02History"])
     ck.rule = ("graphs as in C01 (bounded-exhaustive small graphs + hand-picked + seeded random; well-formed ones only). "
                "Direction 1: each graph written by write_arrays on MemoryStore x zarr_format 2 and 3 (a sample on "
                "LocalStore/Path), dump decoded by Lean `denote` and by a python raw-zarr decoder. Direction 2: per graph "
@@ -859,12 +867,23 @@ def run(ck: common.Check):
                "backend (networkx, rustworkx on every simple graph; spatial-graph on a stream in its domain), the graph each "
                "adapter shows compared with the denoted graph; node ids in arbitrary order (permutations of 0..N-1, descending, "
                "interleaved, sparse); node and edge properties sharing names (same/different dtype, fixed/var-length). "
-               "Histories: 2-3 graphs written through geff.write (networkx, rustworkx with/without node_id_dict) / write_dicts "
+               "STRING VALUE CLASSES: every string column over {'', 'b'} of length 1..3 (all-empty, single empty, empty at each position), "
+               "N-D / masked / all-missing-padded-with-'' variants, node and edge side, x fixed width / variable length UTF8 x zarr 2 / 3, and "
+               "the random graphs again with their string properties blanked. READ/REWRITE HISTORIES: one location (Path, str, LocalStore "
+               "per call, one LocalStore object, one MemoryStore object) through 2-3 epochs; each epoch a writer (independent writer into "
+               "the empty location / after rmtree / zarr overwrite / directory swap, with an unrelated graph or one derived from the previous "
+               "one: same names other dtypes, fixed<->var-length, properties dropped/added, directedness flipped, any format; an in-place "
+               "zarr-API edit; geff's write_arrays) then reads through a drawn subset (last epoch: all) of GeffMetadata.read, "
+               "validate_structure, read_to_memory (validation on/off), GeffReader.build, geff.read networkx/rustworkx, each compared with "
+               "`denote` of the store as dumped at that moment; a failing read is repeated on a copy of the store at a never-seen location. "
+               "Write histories: 2-3 graphs written through geff.write (networkx, rustworkx with/without node_id_dict) / write_dicts "
                "with ONE GeffMetadata object; the graph objects have a history of their own (nodes removed -> rustworkx index "
                "holes, nodes re-inserted / added later, edges removed / added) and are observed through the library's own API at "
                "write time; every written store validated and decoded. Direction 3: stores with one injected defect. "
                "non-trivial = at least one node or property")
     check_document_names(ck)
+    from harness.corr import _c02_rw as RW
+
     base = [c for c in C01.rotate_layouts(C01.exhaustive(ck.quick)) + C01.special_cases() if C01.wf_case(c)]
     nrand = 500 if ck.quick else 2000
     base += [c for c in (C01.random_case(ck.rng, ck.quick) for _ in range(nrand)) if C01.wf_case(c)]
@@ -898,6 +917,14 @@ def run(ck: common.Check):
                            for key in ("node_props", "edge_props")}}
         for _ in range(k):
             d2.append({"g": g2, "enc": draw_encoding(ck.rng, g2), "origin": c["origin"], "direction": 2})
+        # the same graph with its string properties blanked (all values / a random subset empty), variable length UTF8 twice as often
+        gb = RW.blank_strings(ck.rng, g2)
+        if gb is not None:
+            enc = draw_encoding(ck.rng, gb)
+            enc.update(strings=ck.rng.choice(["fixed", "vlen", "vlen"]), str_dummy=ck.rng.choice(["", "dummy"]))
+            d2.append({"g": gb, "enc": enc, "origin": "strings:blanked:" + c["origin"], "direction": 2})
+    # string value classes, bounded-exhaustive: every column over {"", "b"} of length 1..3, N-D, masked; both encodings, both formats
+    d2 += RW.string_cases(ck.rng, ck.quick)
     # graphs in the domain of the spatial-graph backend (axes, numeric fixed-shape properties, no missing values)
     sg_warm()
     for _ in range(120 if ck.quick else 1200):
@@ -914,6 +941,13 @@ def run(ck: common.Check):
     _t0 = _t.time()
     hobs = common.pmap(history_run, hists, chunksize=4)
     ck.extra["t_hist"] = round(_t.time() - _t0, 1)
+
+    # ---------------- direction 2, histories: one location read, rewritten (independent writer / in-place edit / the
+    # library's writer), read again through every read entry point
+    rwh = [c for c in corpus if c.get("direction") == "rw-history"] + RW.rw_history_cases(ck.rng, 70 if ck.quick else 1200)
+    _t0 = _t.time()
+    rwobs = common.pmap(RW.rw_history_run, rwh, chunksize=2)
+    ck.extra["t_rw_hist"] = round(_t.time() - _t0, 1)
 
     # ---------------- direction 3: non-conformant stores (reader error branch; correspondence only)
     d3 = []
@@ -948,6 +982,10 @@ def run(ck: common.Check):
             reqs.append({"op": "read", "store": R.strip_width(ob["dump"])})
             reqs.append({"op": "read", "validate": True, "store": R.strip_width(ob["dump"])})
     for obs in hobs:
+        for ob in obs:
+            if ob.get("dump") is not None:
+                reqs.append({"op": "denote", "store": R.strip_width(ob["dump"])})
+    for obs in rwobs:
         for ob in obs:
             if ob.get("dump") is not None:
                 reqs.append({"op": "denote", "store": R.strip_width(ob["dump"])})
@@ -996,7 +1034,7 @@ def run(ck: common.Check):
     # ---------------- direction 2 verdicts
     for c, ob in zip(d2, obs2):
         g, enc = c["g"], c["enc"]
-        ck.case(c, "d2:" + feature_tag(c), nontrivial=bool(g["node_ids"]["flat"]) or bool(g["node_props"]) or bool(g["edge_props"]))
+        ck.case(c, "d2:" + (RW.string_tag(c) if c["origin"].startswith("strings:") else feature_tag(c)), nontrivial=bool(g["node_ids"]["flat"]) or bool(g["node_props"]) or bool(g["edge_props"]))
         if "indep_error" in ob:
             ck.broken.append({"what": "corr C02:independent-writer", "detail": {"case": c, "error": ob["indep_error"]}})
             continue
@@ -1105,6 +1143,49 @@ def run(ck: common.Check):
                 + (f"the write raised {last['write']}: {last.get('msg')}" if last["write"] != "ok" else
                    f"validate_structure rejects the written store: {last.get('msg')}" if last.get("validate") != "ok" else last["diff"]))
         ck.fail(key, what, h, last.get("diff") or last.get("msg"), "each written store validates and denotes the graph that was written")
+    # ---------------- read / rewrite history verdicts
+    for h, obs in zip(rwh, rwobs):
+        ck.case(h, RW.history_tag(h, obs), nontrivial=True)
+        for ob, ep in zip(obs, h["epochs"]):
+            k = ob["epoch"]
+            a = None
+            if ob.get("dump") is not None and answers is not None:
+                a = answers[ai]
+                ai += 1
+            if ob["write"] != "ok":
+                if ep["writer"] == "library":
+                    # the writer failing on a well-formed graph is C01's / C06's finding; nothing to read here
+                    ck.histogram["rw:library-writer-failed(C01/C06)"] = ck.histogram.get("rw:library-writer-failed(C01/C06)", 0) + 1
+                else:
+                    ck.broken.append({"what": "corr C02:independent-writer(history)", "detail": {"case": h, "epoch": k, "error": ob.get("msg")}})
+                break
+            if ob.get("dump") is None or ob.get("py_decode") is None:
+                ck.corr_broken("C02:history-store-not-decodable", h, ob.get("py_decode_err"), None)
+                break
+            py = R.strip_width(ob["py_decode"])
+            if a is not None:
+                if "err" in a:
+                    ck.corr_broken("C02:driver-denote", h, None, a)
+                elif canon_graph(a["graph"]) != py:
+                    ck.corr_broken("C02:lean-decoder-vs-python-decoder(rw-history)", h, py, canon_graph(a["graph"]))
+                    continue
+            if ep["writer"] == "indep":
+                want = R.strip_width(canon_graph(graph_of_inmem(R.build_geff(ep["g"]), ep["enc"]["directed"])))
+                if py != want:
+                    ck.corr_broken("C02:independent-writer-vs-spec-decoders(rw-history)", h, py, want)
+                    continue
+            for rd in ob["reads"]:
+                ck.histogram[f"rw-read:{rd['via']}:epoch{min(k, 1)}{'+' if k else ''}:{rd['outcome']}"] = \
+                    ck.histogram.get(f"rw-read:{rd['via']}:epoch{min(k, 1)}{'+' if k else ''}:{rd['outcome']}", 0) + 1
+                if not RW.read_bad(rd):
+                    continue
+                writers = " -> ".join(e["writer"] + (f"({e['how']})" if e.get("how") else "") for e in h["epochs"][: k + 1])
+                what = (f"location kind {h['loc']!r}, writers {writers}: after step {k} the store denotes one graph, "
+                        f"{RW.ENTRY[rd['via']]} " + (f"raised {rd['outcome']}: {rd.get('msg')}" if rd["outcome"] != "ok" else f"differs: {rd['diff']}")
+                        + ("; the same call on a copy of the store at a location this process has never seen is correct"
+                           if RW.history_depends(rd) else ""))
+                ck.fail(RW.classify(rd, k), what, h, {kk: vv for kk, vv in rd.items() if kk != "graph"}, "the graph the store denotes at the moment of the read")
+    ck.extra["rw_histories"] = len(rwh)
     ck.extra["histories"] = len(hists)
     ck.extra["direction3_cases"] = n3
     ck.extra["direction1_cases"] = len(d1)
@@ -1121,6 +1202,20 @@ def run(ck: common.Check):
 
 def replay(rp):
     c = rp["case"]
+    if c.get("direction") == "rw-history":
+        from harness.corr import _c02_rw as RW
+
+        obs = RW.rw_history_run(c)
+        bad = [(ob["epoch"], rd) for ob in obs for rd in ob["reads"] if RW.read_bad(rd)]
+        for ob in obs:
+            print(json.dumps({"epoch": ob["epoch"], "writer": ob["writer"], "how": ob.get("how"), "write": ob["write"], "msg": ob.get("msg"),
+                              "denotes": None if ob.get("py_decode") is None else {kk: ob["py_decode"][kk] for kk in ("directed", "nodes", "edges")},
+                              "reads": [{kk: vv for kk, vv in rd.items() if kk != "graph"} for rd in ob["reads"]]}, ensure_ascii=False, default=str))
+        for k, rd in bad:
+            print(f"epoch {k}: {RW.ENTRY[rd['via']]}: " + (f"raised {rd['outcome']}: {rd.get('msg')}" if rd["outcome"] != "ok" else str(rd["diff"]))
+                  + (" [correct on a fresh copy of the store: depends on the history]" if RW.history_depends(rd) else ""))
+        print("REPLAY: property FAILS on this input" if bad else "REPLAY: property holds on this input")
+        return 1 if bad else 0
     if c.get("direction") == "history":
         obs = history_run(c)
         last = obs[-1]
